@@ -263,7 +263,17 @@ fn gen_case(rng: &mut Rng) -> Case {
         body = String::from("    let mut acc: u64 = 7u64;\n    for e in a0 { acc = (acc ^ (e as u64)) << 1u8; }\n");
     } else {
         for (k, sd) in sizes.iter().enumerate() {
-            match g.rng.below(4) {
+            match g.rng.below(5) {
+                4 => {
+                    // the element of a const-sized repeat literal in a typed position is a compound
+                    // expression of suffix-free literals: they get their types from the annotation
+                    uses.insert("const-sized repeat literal of suffix-free compound elements under an annotation");
+                    match g.rng.below(3) {
+                        0 => body += &format!("    let u{k}: [(u16, u8); {n}] = [(300, 7); {n}];\n    for e in u{k} {{ acc = acc + (e.0 as u64) + (e.1 as u64); }}\n", n = sd.name),
+                        1 => body += &format!("    let u{k}: [[u64; 2]; {n}] = [[5, 4294967296]; {n}];\n    for e in u{k} {{ acc = acc ^ e[0] ^ e[1]; }}\n", n = sd.name),
+                        _ => body += &format!("    let u{k}: [i16; {n}] = [if s > 9u16 {{ 1 + 2 }} else {{ -3 }}; {n}];\n    for e in u{k} {{ acc = acc + ((e as u64) & 255u64); }}\n", n = sd.name),
+                    }
+                }
                 0 => {
                     uses.insert("const-sized array parameter + loop trip count");
                     params.push(format!("a{k}: [u8; {}]", sd.name));
